@@ -192,14 +192,14 @@ static void vh_death (void)
 {	if (vh_dying) return ;
 	vh_dying = 1 ;
 	if (vh_out == NULL) return ;
-	fprintf (vh_out, "{\"t\":\"crash\",\"case\":%ld,\"desc\":", vh_case_idx) ; vh_json_str (vh_out, vh_case_desc) ; fprintf (vh_out, "}\n") ;
+	fprintf (vh_out, "\n{\"t\":\"crash\",\"case\":%ld,\"desc\":", vh_case_idx) ; vh_json_str (vh_out, vh_case_desc) ; fprintf (vh_out, "}\n") ;
 	vh_flush_stats () ;
 }
 static void vh_sigdeath (int sig) { fprintf (stderr, "ERROR: UndefinedBehaviorSanitizer: signal-%d \n", sig) ; vh_death () ; _exit (99) ; }
 static void vh_alarm (int sig)
 {	(void) sig ;
 	if (vh_out)
-	{	fprintf (vh_out, "{\"t\":\"hang\",\"case\":%ld,\"kind\":\"wall\",\"desc\":", vh_case_idx) ; vh_json_str (vh_out, vh_case_desc) ; fprintf (vh_out, "}\n") ;
+	{	fprintf (vh_out, "\n{\"t\":\"hang\",\"case\":%ld,\"kind\":\"wall\",\"desc\":", vh_case_idx) ;		/* the leading newline ends a record the signal may have interrupted */ vh_json_str (vh_out, vh_case_desc) ; fprintf (vh_out, "}\n") ;
 		vh_dying = 1 ; vh_flush_stats () ;
 		}
 	_exit (97) ;
@@ -207,7 +207,7 @@ static void vh_alarm (int sig)
 static void vh_cpu_alarm (int sig)
 {	(void) sig ;
 	if (vh_out)
-	{	fprintf (vh_out, "{\"t\":\"hang\",\"case\":%ld,\"kind\":\"cpu\",\"desc\":", vh_case_idx) ; vh_json_str (vh_out, vh_case_desc) ; fprintf (vh_out, "}\n") ;
+	{	fprintf (vh_out, "\n{\"t\":\"hang\",\"case\":%ld,\"kind\":\"cpu\",\"desc\":", vh_case_idx) ; vh_json_str (vh_out, vh_case_desc) ; fprintf (vh_out, "}\n") ;
 		vh_dying = 1 ; vh_flush_stats () ;
 		}
 	_exit (97) ;
